@@ -79,12 +79,48 @@ type FnExec struct {
 	havocked bool
 	inDefers bool
 	curBindings []ssa.Value
+	curArgs []Val
 	assertHit map[int]bool
 	locals []localAlloc // non-escaping stack variables: callees cannot touch them
+	freshObjs []*freshObj // objects allocated for this function (fresh results) whose address has not escaped
+	derived map[Term]Term // field/element address -> base address it was derived from
+	oblNames map[string]int
 	usedG map[string]bool
 	modelTerms [][2]string
 	ptrLeaves map[ssa.Value][]Leaf // pointers to struct fields: the heaps their target lives in
 	nonNil map[Term]bool
+}
+
+type freshObj struct {
+	addr    Term
+	t       types.Type
+	escaped bool
+}
+
+// noteEscape: a value handed to code we know nothing about; fresh objects it points to
+// (directly or through a field address) can be modified from then on.
+func (x *FnExec) noteEscape(v Val) {
+	if len(x.freshObjs) == 0 {
+		return
+	}
+	for _, l := range v.Flatten() {
+		if l.B {
+			continue
+		}
+		t := l.T
+		for i := 0; i < 8; i++ {
+			for _, o := range x.freshObjs {
+				if o.addr == t {
+					o.escaped = true
+				}
+			}
+			b, ok := x.derived[t]
+			if !ok {
+				break
+			}
+			t = b
+		}
+	}
 }
 
 type localAlloc struct {
@@ -316,13 +352,26 @@ func (x *FnExec) typeInv(v Val, t types.Type, allocBound *Term) Term {
 
 // ---------- obligations ----------
 
+func (x *FnExec) uniqueName(name string) string {
+	if x.oblNames == nil {
+		x.oblNames = map[string]int{}
+	}
+	x.oblNames[name]++
+	if n := x.oblNames[name]; n > 1 {
+		return fmt.Sprintf("%s~%d", name, n)
+	}
+	return name
+}
+
 func (x *FnExec) oblige(name, kind, src string, reach Term, goal Term) {
+	name = x.uniqueName(name)
 	q := x.queryPrefix() + "(assert " + reach + ")\n(assert " + Not(goal) + ")\n"
 	x.obls = append(x.obls, &Obligation{Name: x.fnName() + "#" + name, Func: x.fnName(), Kind: kind, Src: src, Query: q,
 		Inputs: append([]string(nil), x.inputs...), InputDesc: append([]string(nil), x.inputDesc...)})
 }
 
 func (x *FnExec) obligeSat(name, kind, src string, reach Term) {
+	name = x.uniqueName(name)
 	q := x.queryPrefix() + "(assert " + reach + ")\n"
 	x.obls = append(x.obls, &Obligation{Name: x.fnName() + "#" + name, Func: x.fnName(), Kind: kind, Src: src, Query: q, ExpectSat: true,
 		Inputs: append([]string(nil), x.inputs...), InputDesc: append([]string(nil), x.inputDesc...)})
@@ -400,7 +449,7 @@ func (e *Engine) VerifyFunction(fn *ssa.Function, con *Contract) (obls []*Obliga
 	x := &FnExec{eng: e, fn: fn, con: con, ctx: NewCtx(), mem: e.mem, vals: map[ssa.Value]Val{},
 		out: map[*ssa.BasicBlock]*State{}, edge: map[[2]int]Term{}, heapBool: map[string]bool{},
 		loopOrd: map[*ssa.BasicBlock]int{}, backEdge: map[[2]int]bool{}, headerSt: map[*ssa.BasicBlock]*State{},
-		nameAt: map[string][]ssa.Value{}, assertHit: map[int]bool{}, ptrLeaves: map[ssa.Value][]Leaf{}, nonNil: map[Term]bool{}}
+		nameAt: map[string][]ssa.Value{}, derived: map[Term]Term{}, assertHit: map[int]bool{}, ptrLeaves: map[ssa.Value][]Leaf{}, nonNil: map[Term]bool{}}
 	x.ctx.pow10Max = con.Pow10Max
 	defer func() {
 		if r := recover(); r != nil {
@@ -1054,6 +1103,41 @@ func (x *FnExec) havocLoop(h *ssa.BasicBlock, st *State, ls *LoopSpec, pre *Stat
 	for _, l := range x.locals {
 		if !written[l.instr] {
 			x.restoreCells(st, old, l)
+		}
+	}
+	// unescaped fresh objects that no instruction of the loop stores into keep their content
+	writtenAddr := map[Term]bool{}
+	for blk := range body {
+		for _, in := range blk.Instrs {
+			if s, ok := in.(*ssa.Store); ok {
+				v := s.Addr
+				for {
+					if fa, ok := v.(*ssa.FieldAddr); ok {
+						v = fa.X
+						continue
+					}
+					if ia, ok := v.(*ssa.IndexAddr); ok {
+						v = ia.X
+						continue
+					}
+					break
+				}
+				if _, isAlloc := v.(*ssa.Alloc); isAlloc {
+					continue // a stack or new() object of this function, never a callee's fresh result
+				}
+				if val, ok := x.vals[v]; ok && !val.IsComp() {
+					writtenAddr[val.T] = true
+				} else {
+					writtenAddr["?"] = true // address not yet known: assume anything
+				}
+			}
+		}
+	}
+	if !writtenAddr["?"] {
+		for _, o := range x.freshObjs {
+			if !o.escaped && !writtenAddr[o.addr] {
+				x.restoreCells(st, old, localAlloc{addr: o.addr, t: o.t})
+			}
 		}
 	}
 	x.ctx.Note(fmt.Sprintf("loop %d of %s: no 'modifies' clause, all heaps havocked at the cut", x.loopOrd[h], x.fnName()))
